@@ -57,6 +57,26 @@ def remote_observations(case, lazy, cache, seed):
     return dict(per)
 
 
+def same_group_difference(case, ref, obs):
+    """do all values that differ between the two runs flow between simulators of the same group?"""
+    grp = {f'S{k}': tuple(case['grp'][k]) for k in range(case['n'])}
+    found = False
+    for sid in ref:
+        for a, b in zip(ref[sid], obs.get(sid, [])):
+            if a == b: continue
+            try: ia, ib = json.loads(a[1]), json.loads(b[1])
+            except Exception: return True
+            for eid in set(ia) | set(ib):
+                for attr in set(ia.get(eid, {})) | set(ib.get(eid, {})):
+                    va, vb = ia.get(eid, {}).get(attr, {}), ib.get(eid, {}).get(attr, {})
+                    for src in set(va) | set(vb):
+                        if va.get(src) != vb.get(src):
+                            found = True
+                            if grp.get(src.split('.')[0]) != grp[sid]: return False
+            break
+    return True
+
+
 def compare(ref, obs, main_tier_only=False):
     diffs = []
     for sid in sorted(set(ref) | set(obs)):
@@ -87,7 +107,7 @@ def run(out, info, tier, seed):
     t0 = time.time()
     for k in range(n):
         crng = random.Random(seed * 1000003 + k)
-        case = gen.gen_chain_case(crng) if k % 8 == 3 else gen.gen_fanin_case(crng) if k % 6 == 1 else gen.gen_parallel_case(crng) if k % 3 == 2 else gen.gen_case(crng, groups=True, clean=0.8, maxn=4)
+        case = gen.gen_sibling_reader_case(crng) if k % 9 == 7 else gen.gen_chain_case(crng) if k % 8 == 3 else gen.gen_fanin_case(crng) if k % 6 == 1 else gen.gen_parallel_case(crng) if k % 3 == 2 else gen.gen_case(crng, groups=True, clean=0.8, maxn=4)
         if k % 5 == 4: case['mirror'] = crng.choice([1, 2])       # several entities per simulator, connected index by index
         variants = []
         for lazy in (True, False):
@@ -132,6 +152,10 @@ def run(out, info, tier, seed):
                 if any(h.startswith('x:') for h in hv): continue
                 for h, f in (('init_on_event_source', 'F17'), ('shared_init_slot', 'F10'), ('weak', 'F11'), ('nonmonotone', 'F14')):
                     if h in hv: fid = f; break
+                if fid == 'F11' and not same_group_difference(case, ref, obs):
+                    # F11 (a reader may see the value of a later sub-step of the same time) concerns readers that share the
+                    # sub-step tier with the source; a reader outside the source's group waits for the whole time step
+                    fid = None
                 if fid and fid in kf and kf[fid]['status'] == 'known': known.setdefault(fid, rec)
                 else: violations.append(rec)
             else:
